@@ -1,7 +1,7 @@
 (* C04 model driver: evaluates the extracted ABFModel at floats on case lines from stdin.
-   Case:  ABF nd lower*nd width*nd nx*nd periodic*nd full min apply update cap maxf*nd szd same sub*nd nsteps
-              (x*nd e*nd o*nd boundary)*nsteps
-   Output (one line): per step "bin .. fbin .. cf .. tf .. af .. cnt .. sum .." joined by " ; ",
+   Case:  ABF nd lower*nd width*nd nx*nd periodic*nd full min update cap maxf*nd szd same sub*nd hidej other*nd scaled sfac*(prod nx)
+              ndata (cnt0*(prod nx) grad0*(prod nx * nd))*ndata nsteps (x*nd e*nd o*nd j*nd boundary apply)*nsteps
+   Output (one line): per step "bin .. fbin .. cf .. tf .. af .. cnt .. sum .. go .." joined by " ; ",
    then " ; SPEC cnt .. sum .." = the per-bin count and minus the summed forces of the attributed samples
    computed by the specification function [attributed] on the trace. *)
 open Model
@@ -34,32 +34,73 @@ let () =
            let nx = List.init nd (fun _ -> ni ()) in
            let periodic = List.init nd (fun _ -> nb ()) in
            let full = ni () in let mn = ni () in
-           let apply = nb () in let update = nb () in let cap = nb () in
+           let update = nb () in let cap = nb () in
            let maxf = nflist nd in
            let szd = nb () in let same = nb () in
            let sub = List.init nd (fun _ -> nb ()) in
+           let hidej = nb () in
+           let other = List.init nd (fun _ -> nb ()) in
+           let scaled = nb () in
+           let nt = List.fold_left (fun a n -> a * (max n 0)) 1 nx in
+           let sfarr = Array.init nt (fun _ -> nf ()) in
+           let sfac (ix : z list) : float =
+             let rec addr a ixs nxs = match ixs, nxs with
+               | i :: ir, n :: nr -> let i = int_of_z i in if i < 0 || i >= n then (-1) else (if a < 0 then a else addr (a * n + i) ir nr)
+               | _, _ -> a in
+             let a = addr 0 ix nx in
+             if a >= 0 && a < nt then sfarr.(a) else 1.0 in
            let c = { c_nd = nat_of_int nd; c_lower = lower; c_width = width; c_nx = List.map z_of_int nx;
-                     c_periodic = periodic; c_full = z_of_int full; c_min = z_of_int mn; c_apply = apply;
+                     c_periodic = periodic; c_full = z_of_int full; c_min = z_of_int mn;
                      c_update = update; c_cap = cap; c_maxf = maxf; c_szd = szd; c_same_step = same;
-                     c_subtract = sub } in
+                     c_subtract = sub; c_hidej = hidej; c_other = other; c_scaled = scaled; c_sfac = sfac } in
+           (* data read through inputPrefix *)
+           let ndata = ni () in
+           let addr_of (ix : z list) : int =
+             let rec addr a ixs nxs = match ixs, nxs with
+               | i :: ir, n :: nr -> let i = int_of_z i in if i < 0 || i >= n then (-1) else (if a < 0 then a else addr (a * n + i) ir nr)
+               | _, _ -> a in
+             addr 0 ix nx in
+           let datasets = List.init ndata (fun _ ->
+               let cnt0arr = Array.init nt (fun _ -> ni ()) in
+               let grad0arr = Array.init (nt * nd) (fun _ -> nf ()) in
+               let cnt0 ix = let a = addr_of ix in if a >= 0 && a < nt then z_of_int cnt0arr.(a) else z_of_int 0 in
+               let grad0 ix = let a = addr_of ix in
+                 List.init nd (fun k -> if a >= 0 && a < nt then grad0arr.(a * nd + k) else 0.0) in
+               (cnt0, grad0)) in
            let nsteps = ni () in
            let steps = List.init nsteps (fun _ ->
-               let x = nflist nd in let e = nflist nd in let o = nflist nd in let b = nb () in
-               { i_x = x; i_e = e; i_o = o; i_boundary = b }) in
+               let x = nflist nd in let e = nflist nd in let o = nflist nd in let j = nflist nd in let b = nb () in
+               let a = nb () in
+               { i_x = x; i_e = e; i_o = o; i_j = j; i_boundary = b; i_apply = a }) in
            let ixs = all_indices nx in
            let zs l = String.concat " " (List.map (fun z -> string_of_int (int_of_z z)) l) in
            let fs l = String.concat " " (List.map hex l) in
-           let grid cnt sum =
+           let grid0 cnt sum =
              Printf.sprintf "cnt %s sum %s"
                (String.concat " " (List.map (fun ix -> string_of_int (int_of_z (cnt (List.map z_of_int ix)))) ixs))
                (String.concat " " (List.map (fun ix ->
                     let v = sum (List.map z_of_int ix) in
                     fs (List.init nd (fun k -> vget fops v (nat_of_int k)))) ixs)) in
+           let grid cnt sum =
+             Printf.sprintf "%s go %s" (grid0 cnt sum)
+               (String.concat " " (List.map (fun ix ->
+                    fs (List.init nd (fun k -> grad_out fops cnt sum (List.map z_of_int ix) (nat_of_int k)))) ixs)) in
            let buf = Buffer.create 4096 in
-           let s = ref (abf_init fops c) in
+           let s0 = abf_init_data fops c datasets in
+           let s = ref s0 in
            let outs = ref [] in
            List.iter (fun i ->
                let (s1, o) = abf_step fops c !s i in
+               (* The grids of the model are functions idx -> value, each step wrapping the previous one in a
+                  closure: evaluate them once on the bins of the grid and continue with table look-ups
+                  (same function on every index: outside the table the original closure answers). *)
+               let zixs = List.map (fun ix -> List.map z_of_int ix) ixs in
+               let tc = Hashtbl.create 64 and ts = Hashtbl.create 64 in
+               List.iter2 (fun ix zix -> Hashtbl.replace tc ix (s1.s_cnt zix); Hashtbl.replace ts ix (s1.s_sum zix)) ixs zixs;
+               let key zix = List.map int_of_z zix in
+               let s1 = { s1 with
+                          s_cnt = (fun zix -> match Hashtbl.find_opt tc (key zix) with Some v -> v | None -> s1.s_cnt zix);
+                          s_sum = (fun zix -> match Hashtbl.find_opt ts (key zix) with Some v -> v | None -> s1.s_sum zix) } in
                s := s1; outs := o :: !outs;
                Buffer.add_string buf (Printf.sprintf "bin %s fbin %s cf %s tf %s af %s %s ; "
                                         (zs s1.s_bin) (zs s1.s_fbin) (fs o.o_fabf) (fs o.o_tf) (fs o.o_f)
@@ -67,10 +108,11 @@ let () =
            (* the specification evaluated on the trace *)
            let tr = List.combine steps (List.rev !outs) in
            let att = attributed fops c tr in
-           let scnt ix = z_of_int (List.length (samples_in ix att)) in
+           let scnt ix = z_of_int (int_of_z (s0.s_cnt ix) + List.length (samples_in ix att)) in
            let ssum ix = List.init nd (fun k ->
+               vget fops (s0.s_sum ix) (nat_of_int k)
                -. (List.fold_left (fun acc v -> acc +. vget fops v (nat_of_int k)) 0.0 (samples_in ix att))) in
-           Buffer.add_string buf ("SPEC " ^ grid scnt ssum);
+           Buffer.add_string buf ("SPEC " ^ grid0 scnt ssum);
            print_string (Buffer.contents buf); print_newline ()
          | _ -> Printf.printf "?\n")
       end
